@@ -173,3 +173,162 @@ macro_rules! finalize_full {
 }
 finalize_full!(finalize_full_short, 1, 12, 48, 15, 32, 10, 10, 18, 50);
 finalize_full!(finalize_full_normal, 1, 32, 128, 35, 72, 50, 128, 65, 130);
+
+// ---- (d1) recording model of select_nth_unstable + finalize given pivots
+static mut REC_CALLS: usize = 0;
+static mut REC_BASE: usize = 0;
+static mut REC: [(usize, usize, usize); 3] = [(0, 0, 0); 3];
+static mut REC_PIV: [u32; 3] = [0; 3];
+
+#[allow(unsafe_code)]
+pub(crate) fn select_nth_recording<T: Ord>(s0: &mut [T], index: usize) -> (&mut [T], &mut T, &mut [T]) {
+    assert!(core::mem::size_of::<T>() == 4);
+    assert!(index < s0.len());
+    unsafe {
+        let c = REC_CALLS;
+        assert!(c < 3);
+        let p = s0.as_ptr() as usize;
+        if c == 0 { REC_BASE = p; }
+        REC[c] = ((p - REC_BASE) / 4, s0.len(), index);
+        REC_CALLS = c + 1;
+        let s: &mut [u32] = core::slice::from_raw_parts_mut(s0.as_mut_ptr() as *mut u32, s0.len());
+        // the pivot is pre-chosen by the harness (so the harness can name it)
+        s[index] = REC_PIV[c];
+    }
+    let (l, r) = s0.split_at_mut(index);
+    let (p, r) = r.split_first_mut().unwrap();
+    (l, p, r)
+}
+
+macro_rules! finalize_given {
+    ($name:ident, $ck:literal, $body:literal, $n:literal, $bytes:literal, $str:literal, $min:literal, $minc:literal, $minnz:literal, $unw:literal) => {
+        #[kani::proof]
+        #[kani::unwind($unw)]
+        #[kani::stub(<[u32]>::select_nth_unstable, select_nth_recording)]
+        #[allow(unsafe_code)]
+        fn $name() {
+            let mut g: InnerGen<$ck, $body, $n, $bytes, $str> = Default::default();
+            g.buckets.buckets = kani::any();
+            g.len = kani::any();
+            g.tail_len = kani::any();
+            kani::assume(g.tail_len <= 4 && (g.tail_len == 4 || g.len == 0));
+            let (int_mode, small, half, quarter, conservative): (bool, bool, bool, bool, bool) = kani::any();
+            let mut opts = GeneratorOptions::new();
+            opts.pure_integer_qratio_computation(int_mode);
+            opts.allow_small_size_files(small);
+            opts.allow_statistically_weak_buckets_half(half);
+            opts.allow_statistically_weak_buckets_quarter(quarter);
+            if conservative { opts.length_processing_mode(crate::length::DataLengthProcessingMode::Conservative); }
+            // pivots: call #0 -> q2, #1 -> q1, #2 -> q3 ; ordered (lemma d2)
+            let (q1, q2, q3): (u32, u32, u32) = kani::any();
+            kani::assume(q1 <= q2 && q2 <= q3);
+            unsafe { REC_CALLS = 0; REC_PIV = [q2, q1, q3]; }
+            let before = g.clone();
+            let r = g.finalize_with_options(&opts);
+            let _ = &before;
+            let n64 = g.len as u64 + g.tail_len as u64;
+            let too_large = n64 > 4224281216;
+            let too_small = n64 < $min || (conservative && n64 < $minc);
+            if too_large { assert!(r == Err(GeneratorError::TooLargeInput)); return; }
+            if too_small && !small { assert!(r == Err(GeneratorError::TooSmallInput)); return; }
+            // call pattern
+            unsafe {
+                assert!(REC_CALLS == 3);
+                assert!(REC[0] == (0, $n, $n / 2 - 1));
+                assert!(REC[1] == (0, $n / 2 - 1, $n / 4 - 1));
+                assert!(REC[2] == ($n / 2, $n / 2, $n / 4 - 1));
+            }
+            let b: &[u32] = &g.buckets.buckets[..$n];
+            let mut nz = 0usize; let mut i = 0; while i < $n { if b[i] != 0 { nz += 1; } i += 1; }
+            if q3 == 0 && !quarter { assert!(r == Err(GeneratorError::BucketsAreThreeQuarterEmpty)); return; }
+            if nz < $minnz && !(half || quarter) { assert!(r == Err(GeneratorError::BucketsAreHalfEmpty)); return; }
+            let (q1, q2, q3) = if q3 == 0 { (1, 1, 1) } else { (q1, q2, q3) };
+            assert!(r.is_ok());
+            let h = r.unwrap();
+            let (e1, e2) = if int_mode {
+                ((((q1 as u64 * 100) / q3 as u64) % 16) as u8, (((q2 as u64 * 100) / q3 as u64) % 16) as u8)
+            } else {
+                ((((q1.wrapping_mul(100) as f32) / q3 as f32) as u32 % 16) as u8, (((q2.wrapping_mul(100) as f32) / q3 as f32) as u32 % 16) as u8)
+            };
+            assert!(h.qratios().q1ratio() == e1 && h.qratios().q2ratio() == e2);
+            assert!(h.checksum().data() == g.checksum.data());
+            let k: usize = kani::any(); kani::assume(k < $n);
+            let d = if b[k] > q3 { 3 } else if b[k] > q2 { 2 } else if b[k] > q1 { 1 } else { 0 };
+            use crate::hash::body::FuzzyHashBody;
+            assert!(h.body().quartile(k) == d);
+        }
+    };
+}
+finalize_given!(finalize_given_short, 1, 12, 48, 15, 32, 10, 10, 18, 50);
+finalize_given!(finalize_given_normal, 1, 32, 128, 35, 72, 50, 128, 65, 130);
+
+// ---- (d1) split by aspect, Short only
+macro_rules! finalize_aspect {
+    ($name:ident, $aspect:literal, $mode:expr) => {
+        #[kani::proof]
+        #[kani::unwind(50)]
+        #[kani::stub(<[u32]>::select_nth_unstable, select_nth_recording)]
+        #[allow(unsafe_code)]
+        fn $name() {
+            let mut g: InnerGen<1, 12, 48, 15, 32> = Default::default();
+            g.buckets.buckets = kani::any();
+            g.len = kani::any();
+            g.tail_len = kani::any();
+            kani::assume(g.tail_len <= 4 && (g.tail_len == 4 || g.len == 0));
+            let (small, half, quarter, conservative): (bool, bool, bool, bool) = kani::any();
+            let int_mode: bool = match $mode { 0 => true, 1 => false, _ => kani::any() };
+            let mut opts = GeneratorOptions::new();
+            opts.pure_integer_qratio_computation(int_mode);
+            opts.allow_small_size_files(small);
+            opts.allow_statistically_weak_buckets_half(half);
+            opts.allow_statistically_weak_buckets_quarter(quarter);
+            if conservative { opts.length_processing_mode(crate::length::DataLengthProcessingMode::Conservative); }
+            let (q1, q2, q3): (u32, u32, u32) = kani::any();
+            kani::assume(q1 <= q2 && q2 <= q3);
+            unsafe { REC_CALLS = 0; REC_PIV = [q2, q1, q3]; }
+            let r = g.finalize_with_options(&opts);
+            let n64 = g.len as u64 + g.tail_len as u64;
+            let too_large = n64 > 4224281216;
+            let too_small = n64 < 10;
+            let b: &[u32] = &g.buckets.buckets[..48];
+            let mut nz = 0usize; let mut i = 0; while i < 48 { if b[i] != 0 { nz += 1; } i += 1; }
+            let expect_err = if too_large { Some(GeneratorError::TooLargeInput) }
+                else if too_small && !small { Some(GeneratorError::TooSmallInput) }
+                else if q3 == 0 && !quarter { Some(GeneratorError::BucketsAreThreeQuarterEmpty) }
+                else if nz < 18 && !(half || quarter) { Some(GeneratorError::BucketsAreHalfEmpty) }
+                else { None };
+            if $aspect == 0 {
+                match expect_err { Some(e) => assert!(r == Err(e)), None => assert!(r.is_ok()) }
+                unsafe { if !too_large && !(too_small && !small) {
+                    assert!(REC_CALLS == 3 && REC[0] == (0, 48, 23) && REC[1] == (0, 23, 11) && REC[2] == (24, 24, 11));
+                } }
+                return;
+            }
+            kani::assume(expect_err.is_none());
+            kani::assume(r.is_ok());
+            let h = r.unwrap();
+            let (q1, q2, q3) = if q3 == 0 { (1, 1, 1) } else { (q1, q2, q3) };
+            if $aspect == 1 {
+                let (e1, e2) = if int_mode {
+                    ((((q1 as u64 * 100) / q3 as u64) % 16) as u8, (((q2 as u64 * 100) / q3 as u64) % 16) as u8)
+                } else {
+                    ((((q1.wrapping_mul(100) as f32) / q3 as f32) as u32 % 16) as u8, (((q2.wrapping_mul(100) as f32) / q3 as f32) as u32 % 16) as u8)
+                };
+                assert!(h.qratios().q1ratio() == e1 && h.qratios().q2ratio() == e2);
+            } else if $aspect == 2 {
+                let k: usize = kani::any(); kani::assume(k < 48);
+                let d = if b[k] > q3 { 3 } else if b[k] > q2 { 2 } else if b[k] > q1 { 1 } else { 0 };
+                use crate::hash::body::FuzzyHashBody;
+                assert!(h.body().quartile(k) == d);
+            } else {
+                assert!(h.checksum().data() == g.checksum.data());
+                assert!((h.length().value() as usize) < 170);
+            }
+        }
+    };
+}
+finalize_aspect!(fin_s_errors, 0, 2);
+finalize_aspect!(fin_s_qratio_int, 1, 0);
+finalize_aspect!(fin_s_qratio_f32, 1, 1);
+finalize_aspect!(fin_s_body, 2, 2);
+finalize_aspect!(fin_s_misc, 3, 2);
